@@ -43,7 +43,23 @@ def gen_case(rng, thorough=False, fs=None):
     c['route'] = rng.choice(['function', 'class', 'class'])
     if c['route'] == 'function':
         c['drho'] = rng.choice([0.5, 0.05, round(rng.uniform(0.01, 2), 4)]); c['dr'] = rng.choice([0.1, 0.01, round(rng.uniform(0.001, 0.5), 4)])
+    if rng.random() < 0.2:
+        # pair potentials that name a species outside the EAM set: they have no block in the file and do not count
+        c['labels'] = c['labels'] + ['Qq']
+        c['pairs'] = c['pairs'] + [['Qq', 'Qq']] + ([[c['elements'][0]['sp'], 'Qq']] if rng.random() < 0.5 else [])
+        rng.shuffle(c['pairs'])
     return c
+
+def potable_corpus():
+    """fixed potable models: [Pair] entries for a species that has neither an embedding nor a density function (not an EAM species): the
+    declared count and the blocks are those of the EAM species alone"""
+    out = []
+    for fs in (False, True):
+        c = {'potable_eam': True, 'fs': fs, 'nr': 5, 'nrho': 4, 'cutoff': 6.0, 'cutoff_rho': 50.0, 'target': 'DL_POLY_EAM_fs' if fs else 'DL_POLY_EAM', 'species': {},
+             'embed': [('Ni', ec.EMBED[0]), ('Al', ec.EMBED[1])], 'dens': ([(('Ni', 'Ni'), ec.DENS[0]), (('Ni', 'Al'), ec.DENS[1]), (('Al', 'Ni'), ec.DENS[2])] if fs else [('Ni', ec.DENS[0]), ('Al', ec.DENS[1])]),
+             'ppairs': [(('Zz', 'Zz'), ec.PAIRD[0]), (('Ni', 'Al'), ec.PAIRD[1]), (('Zz', 'Ni'), ec.PAIRD[2]), (('Al', 'Al'), ec.PAIRD[0])]}
+        out.append(c)
+    return out
 
 def run_potable(case):
     from atsim.potentials.config import Configuration
@@ -54,7 +70,7 @@ def run_potable(case):
 def correspond(ctx):
     rng = ctx['rng']
     cases = [gen_case(rng, ctx['thorough']) for _ in range(200 if ctx['thorough'] else 45)]
-    pcases = []
+    pcases = potable_corpus()
     for _ in range(30 if ctx['thorough'] else 8):
         fs = rng.random() < 0.5
         pcases.append(ec.gen_potable_eam(rng, fs, 'DL_POLY_EAM_fs' if fs else 'DL_POLY_EAM'))
@@ -179,6 +195,7 @@ def oracle(case):
     return fails
 
 def search_cases(rng, n):
+    for c in potable_corpus(): yield c
     for k in range(n // 4):
         yield gen_case(rng)
         if k % 6 == 0:
